@@ -83,7 +83,8 @@ NEEDS = {
              "an interrupt while the header keys are being stored inside the first begin/round action (3-6 % of the crash points of a tiny election)"),
  'R20-C20': ("meek.py dist(): equal-rank lists of the profile pruned in place",
              "meek/warren, an equal-ranking ballot whose group loses a defeated member, then the SAME ElectionProfile object counted again"),
- 'R05-C05': ("(see notes.txt)", "(see notes.txt)"),
+ 'R05-C05': ("meek.py iterate(): distributeVotes() indented into the 'if V.exact:' progress block",
+             "meek/warren with fixed or guard=0 arithmetic and >= 2 seats: ballots are no longer redistributed between keep-factor updates"),
 
 }
 for name, (what, needs) in NEEDS.items():
